@@ -3089,7 +3089,7 @@ handle_request(coap_context_t *context, coap_session_t *session, coap_pdu_t *pdu
   opt = coap_check_option(pdu, COAP_OPTION_PROXY_SCHEME, &opt_iter);
   if (opt) {
     opt = coap_check_option(pdu, COAP_OPTION_URI_HOST, &opt_iter);
-    if (!opt) {
+    if (!opt && context->proxy_uri_resource) {
       coap_log_debug("Proxy-Scheme requires Uri-Host\n");
       resp = 402;
       goto fail_response;
